@@ -16,7 +16,7 @@ def generate(rng, tier):
     n = 300 if tier == 'quick' else 6000
     o = gen.Opts(max_fields=8, p_explicit_addr=0.4, p_gap=0.25, p_packed=0.12, p_base=0.4, p_vftable=0.35,
                  p_impl=0.1, p_backend=0.0, p_extern_val=0.0, p_doc=0.05, p_extern_type=0.5)
-    o.p_nearmiss = 0.04
+    o.p_nearmiss = 0.08
     return std_worlds(rng, n, o, perturb=0.25)
 
 def check_offsets(c, files, crate, report):
